@@ -1,6 +1,7 @@
 import RsslVerif.Lemmas.Layout
 import RsslVerif.Lemmas.LayoutCollect
 import RsslVerif.Lemmas.LayoutFull
+import RsslVerif.Lemmas.LayoutFields
 import RsslVerif.Gen.LayoutSites
 /-!
 # C19 — layout-consistency validation is sound
@@ -117,6 +118,29 @@ theorem check_total (t : Ty) (hw : wf t = true) (hh : size .hlsl t ≤ u32Max)
     the same layout -/
 theorem vector_free_agree (t : Ty) (hv : vectorFree t = true) : Agree t :=
   ⟨(vectorFree_same t hv).2.1, (vectorFree_same t hv).2.2⟩
+
+/-! ## The same statements in the property's own words (flattened field offsets) -/
+
+/-- `Agree` is exactly what the property demands: the same total size and the same absolute byte offset of every
+    field, recursively (every array element listed). -/
+theorem agree_iff_same_size_and_offsets (t : Ty) (hw : wf t = true) :
+    Agree t ↔ (size .hlsl t = size .metal t ∧ fieldsAt .hlsl t 0 = fieldsAt .metal t 0) :=
+  RsslVerif.Lemmas.LayoutFields.agree_iff_fields t hw
+
+/-- a rejection is never spurious: the blamed type differs in total size or in the offset of some field -/
+theorem rejected_really_differs (t : Ty) (lh lm : Layout) (hw : wf t = true)
+    (hh : size .hlsl t ≤ u32Max) (hm : size .metal t ≤ u32Max)
+    (h : checkAll [t] = .mismatch 0 lh lm) :
+    ¬ (size .hlsl t = size .metal t ∧ fieldsAt .hlsl t 0 = fieldsAt .metal t 0) :=
+  fun hf => rejected_differs t lh lm hw hh hm h ((agree_iff_same_size_and_offsets t hw).2 hf)
+
+/-- no false rejection: types with the same total size and the same offset of every field are accepted -/
+theorem check_complete_fields (ts : List Ty)
+    (h : ∀ t ∈ ts, wf t = true ∧ size .hlsl t ≤ u32Max ∧ size .metal t ≤ u32Max ∧
+      size .hlsl t = size .metal t ∧ fieldsAt .hlsl t 0 = fieldsAt .metal t 0) :
+    checkAll ts = .ok :=
+  check_complete ts fun t ht =>
+    ⟨(h t ht).1, (h t ht).2.1, (h t ht).2.2.1, (agree_iff_same_size_and_offsets t (h t ht).1).2 (h t ht).2.2.2⟩
 
 /-! ## Which uses of a type are validated (the collection loops of `check_layout`) -/
 section collection
@@ -348,20 +372,22 @@ theorem no_layout_no_verdict (t : XTy) (hp : plain t = false) :
     subst this
     exact hn _ hc
 
-/-- **Completeness, partial.**  Agreeing types without `bool` and matrices (sizes ≤ u32::MAX) are all accepted.
+/-- **Completeness, partial.**  Types without `bool` and matrices that have the same total size and the same
+    byte offset of every field under both rule sets (sizes ≤ u32::MAX) are all accepted.
     *Missing for the full statement:* a type that mentions a `bool` or a matrix is rejected ("unknown size") even
     when its two layouts agree — `complete_fails_beyond_plain` gives `{float4x4}` and `{bool; int}`. -/
 theorem check_complete_partial (ts : List XTy)
-    (h : ∀ t ∈ ts, xwf t = true ∧ plain t = true ∧ xsize .hlsl t ≤ u32Max ∧ xsize .metal t ≤ u32Max ∧ XAgree t) :
+    (h : ∀ t ∈ ts, xwf t = true ∧ plain t = true ∧ xsize .hlsl t ≤ u32Max ∧ xsize .metal t ≤ u32Max ∧
+      xsize .hlsl t = xsize .metal t ∧ xfieldsAt .hlsl t 0 = xfieldsAt .metal t 0) :
     checkAll (ts.map erase) = .ok := by
-  apply check_complete
+  apply check_complete_fields
   intro u hu
   obtain ⟨t, ht, rfl⟩ := List.mem_map.1 hu
-  obtain ⟨hw, hp, hh, hm, ha⟩ := h t ht
-  obtain ⟨w, hs, _, hag⟩ := coincide t hp hw
-  refine ⟨w, by rw [← (hs .hlsl).1]; exact hh, by rw [← (hs .metal).1]; exact hm, ?_, ?_⟩
-  · rw [← (hs .hlsl).1, ← (hs .metal).1]; exact ha.1
-  · rw [← hag]; exact ha.2
+  obtain ⟨hw, hp, hh, hm, hs, hf⟩ := h t ht
+  obtain ⟨w, hsz, hfl, _⟩ := coincide t hp hw
+  refine ⟨w, by rw [← (hsz .hlsl).1]; exact hh, by rw [← (hsz .metal).1]; exact hm, ?_, ?_⟩
+  · rw [← (hsz .hlsl).1, ← (hsz .metal).1]; exact hs
+  · rw [← hfl .hlsl 0, ← hfl .metal 0]; exact hf
 
 private def xf : XTy := .scalar .Float32
 private def XS (l : List XTy) : XTy := .struct (XTys.ofList l)
@@ -369,9 +395,13 @@ private def XS (l : List XTy) : XTy := .struct (XTys.ofList l)
 /-- the full completeness statement is false: these two have identical layouts under both rule sets and are
     rejected with "unknown size" -/
 theorem complete_fails_beyond_plain :
-    (xwf (XS [.mat .Float32 4 4 .none]) = true ∧ XAgree (XS [.mat .Float32 4 4 .none]) ∧
+    (xwf (XS [.mat .Float32 4 4 .none]) = true ∧
+      xsize .hlsl (XS [.mat .Float32 4 4 .none]) = xsize .metal (XS [.mat .Float32 4 4 .none]) ∧
+      xfieldsAt .hlsl (XS [.mat .Float32 4 4 .none]) 0 = xfieldsAt .metal (XS [.mat .Float32 4 4 .none]) 0 ∧
       checkAll [erase (XS [.mat .Float32 4 4 .none])] = .unknown 0) ∧
-    (xwf (XS [.scalar .Bool, .scalar .Int32]) = true ∧ XAgree (XS [.scalar .Bool, .scalar .Int32]) ∧
+    (xwf (XS [.scalar .Bool, .scalar .Int32]) = true ∧
+      xsize .hlsl (XS [.scalar .Bool, .scalar .Int32]) = xsize .metal (XS [.scalar .Bool, .scalar .Int32]) ∧
+      xfieldsAt .hlsl (XS [.scalar .Bool, .scalar .Int32]) 0 = xfieldsAt .metal (XS [.scalar .Bool, .scalar .Int32]) 0 ∧
       checkAll [erase (XS [.scalar .Bool, .scalar .Int32])] = .unknown 0) := by
   decide
 
